@@ -189,6 +189,141 @@ func (g *mwCallGraph) mwReaches(from string, targets map[string]bool, stopAt map
 	return false, nil
 }
 
+// mwFieldWriters: one entry per site in package mcp that gives the struct field `field` a value — an assignment to a
+// selector `x.field` (any receiver expression), or the key `field:` of a composite literal — named by the function the
+// site is in. Function literals are named the way the Go tool chain names closures: `Outer.func1`, `Outer.func2`, nested
+// `Outer.func1.1`; so a write inside the closure an option constructor returns shows up as e.g. `WithSSEServerLogger.func1`,
+// never as the constructor. Shapes that could write the field without being one of the two (its address is taken, an
+// unkeyed composite literal of a struct that has the field, a package-level initialiser) are emitted with a suffix
+// `:address-taken` / `:unkeyed-literal` / prefix `var ` that no Lean predicate accepts. Sorted, duplicates kept.
+func mwFieldWriters(root *pkgSrc, field string) (writers []string, holders []string) {
+	holder := map[string]bool{}
+	for _, fn := range root.sortedFiles() {
+		for _, d := range root.files[fn].Decls {
+			gd, ok := d.(*ast.GenDecl)
+			if !ok || gd.Tok != token.TYPE {
+				continue
+			}
+			for _, sp := range gd.Specs {
+				ts, ok := sp.(*ast.TypeSpec)
+				if !ok {
+					continue
+				}
+				st, ok := ts.Type.(*ast.StructType)
+				if !ok || st.Fields == nil {
+					continue
+				}
+				for _, f := range st.Fields.List {
+					for _, n := range f.Names {
+						if n.Name == field {
+							holder[ts.Name.Name] = true
+						}
+					}
+				}
+			}
+		}
+	}
+	for h := range holder {
+		holders = append(holders, h)
+	}
+	sort.Strings(holders)
+	litType := func(e ast.Expr) string {
+		switch t := e.(type) {
+		case *ast.Ident:
+			return t.Name
+		case *ast.StarExpr:
+			if id, ok := t.X.(*ast.Ident); ok {
+				return id.Name
+			}
+		}
+		return ""
+	}
+	isField := func(e ast.Expr) bool {
+		for {
+			p, ok := e.(*ast.ParenExpr)
+			if !ok {
+				break
+			}
+			e = p.X
+		}
+		sel, ok := e.(*ast.SelectorExpr)
+		return ok && sel.Sel.Name == field
+	}
+	var walk func(body ast.Node, name string, depth int)
+	walk = func(body ast.Node, name string, depth int) {
+		cnt := 0
+		ast.Inspect(body, func(n ast.Node) bool {
+			switch x := n.(type) {
+			case *ast.FuncLit:
+				cnt++
+				sub := fmt.Sprintf("%s.func%d", name, cnt)
+				if depth > 0 {
+					sub = fmt.Sprintf("%s.%d", name, cnt)
+				}
+				walk(x.Body, sub, depth+1)
+				return false
+			case *ast.AssignStmt:
+				for _, l := range x.Lhs {
+					if isField(l) {
+						writers = append(writers, name)
+					}
+				}
+			case *ast.IncDecStmt:
+				if isField(x.X) {
+					writers = append(writers, name+":incdec")
+				}
+			case *ast.RangeStmt:
+				if (x.Key != nil && isField(x.Key)) || (x.Value != nil && isField(x.Value)) {
+					writers = append(writers, name+":range-target")
+				}
+			case *ast.UnaryExpr:
+				if x.Op == token.AND && isField(x.X) {
+					writers = append(writers, name+":address-taken")
+				}
+			case *ast.CompositeLit:
+				keyed := false
+				for _, e := range x.Elts {
+					if kv, ok := e.(*ast.KeyValueExpr); ok {
+						keyed = true
+						if id, ok := kv.Key.(*ast.Ident); ok && id.Name == field {
+							writers = append(writers, name)
+						}
+					}
+				}
+				if !keyed && len(x.Elts) > 0 && x.Type != nil && holder[litType(x.Type)] {
+					writers = append(writers, name+":unkeyed-literal")
+				}
+			}
+			return true
+		})
+	}
+	for _, fn := range root.sortedFiles() {
+		for _, d := range root.files[fn].Decls {
+			switch x := d.(type) {
+			case *ast.FuncDecl:
+				if x.Body != nil {
+					walk(x.Body, funcName(x), 0)
+				}
+			case *ast.GenDecl:
+				if x.Tok != token.VAR {
+					continue
+				}
+				for _, sp := range x.Specs {
+					vs, ok := sp.(*ast.ValueSpec)
+					if !ok || len(vs.Names) == 0 {
+						continue
+					}
+					for _, v := range vs.Values {
+						walk(v, "var "+vs.Names[0].Name, 0)
+					}
+				}
+			}
+		}
+	}
+	sort.Strings(writers)
+	return writers, holders
+}
+
 func genMiddlewareFacts(root *pkgSrc) {
 	shape := mwLoopShape(root)
 
@@ -358,6 +493,23 @@ func genMiddlewareFacts(root *pkgSrc) {
 			return ""
 		}(), leanBool(bypass))
 	fmt.Fprintf(&b, "/-- JSON-RPC code a Go error returned by the chain is answered with (0 = mapping not recognised). -/\ndef mwInternalCodeStreamable : Int := %d\ndef mwInternalCodeSSE : Int := %d\n", codeStreamable, codeSSE)
+	// who gives the field `mcpHandler` (the object the middlewares are registered on) a value
+	hw, holders := mwFieldWriters(root, "mcpHandler")
+	b.WriteString("/-- Every site of package mcp that gives a struct field `mcpHandler` a value (assignment to a selector `….mcpHandler`, composite-literal key `mcpHandler:`), named by the function it is in; closures as `Outer.func1`; one entry per site, sorted. Anything that is not a plain write inside a named function carries a marker (`:address-taken`, `:unkeyed-literal`, `var …`). -/\ndef mwHandlerWriters : List (List Nat) := [")
+	for i, w := range hw {
+		if i > 0 {
+			b.WriteString(",")
+		}
+		fmt.Fprintf(&b, "\n  -- %s\n  %s", strings.ReplaceAll(w, "-/", "- /"), leanText(w))
+	}
+	b.WriteString("]\n/-- The struct types that have a field `mcpHandler`. -/\ndef mwHandlerHolders : List (List Nat) := [")
+	for i, h := range holders {
+		if i > 0 {
+			b.WriteString(",")
+		}
+		fmt.Fprintf(&b, "\n  -- %s\n  %s", h, leanText(h))
+	}
+	b.WriteString("]\n")
 	b.WriteString("end Mcp.Gen\n")
 	writeIfChanged("MiddlewareFacts.lean", b.String())
 }
